@@ -61,7 +61,13 @@ fn invocation(sc: &XScenario, xp: &XPlan) -> Invocation {
             files.push(("prog.blots".to_string(), src.into_bytes()));
             argv.push("prog.blots".into());
         }
-        "inline" => argv.push(src),
+        "inline" => {
+            // a script that begins with `-` would be taken for an option: the user writes `--`
+            if src.starts_with('-') {
+                argv.push("--".into());
+            }
+            argv.push(src)
+        }
         _ => {
             argv.push("-e".into());
             stdin = StdinKind::Pipe(src.into_bytes());
